@@ -545,21 +545,53 @@ def operand_ty(body, op):
 
 
 def success_returns(body):
-    """blocks assigning the return place a success value: `_0 = Ok(..)/Some(..)` directly, or
-    `_0 = move tmp` with tmp's only definition being such an aggregate.
-    returns [(bb of the _0 store, statement holding the aggregate)]"""
+    """blocks assigning the return place a success value: `_0 = Ok(..)/Some(..)` directly, or through plain moves, or — in an
+    inlined body — through the return plumbing of a spliced helper (`poll = Ready(r); _0 = (poll as Ready).0`, `dest = r`).
+    returns [(bb of the statement holding the Ok/Some aggregate (the _0 store for direct ones), that statement)]"""
     out = []
+    seen = set()
+
+    def from_local(l, store_bb, depth):
+        if depth <= 0 or (l, store_bb) in seen:
+            return
+        seen.add((l, store_bb))
+        for d in body.defs().get(l, []):
+            if d[0] != 's':
+                continue
+            r = d[3]['r']
+            if r['k'] == 'agg' and r.get('var') in ('Ok', 'Some'):
+                out.append((store_bb if store_bb is not None else d[1], d[3]))
+            elif r['k'] == 'agg' and r.get('var') == 'Ready' and r.get('ops') and 'p' in r['ops'][0]:
+                from_local(r['ops'][0]['p'][0], None, depth - 1)
+            elif r['k'] == 'use' and 'p' in r['o']:
+                pl = r['o']['p']
+                if len(pl) == 1 or all(isinstance(p, str) and (p.startswith('@Ready') or p.endswith('::0') or p == '*') for p in pl[1:]):
+                    from_local(pl[0], None if getattr(body, 'inlined', None) else store_bb, depth - 1)
+
     for d in body.defs().get(0, []):
         if d[0] != 's':
             continue
         r = d[3]['r']
         if r['k'] == 'agg' and r.get('var') in ('Ok', 'Some'):
             out.append((d[1], d[3]))
-        elif r['k'] == 'use' and 'p' in r['o'] and len(r['o']['p']) == 1:
-            sd = body.single_def(r['o']['p'][0])
-            if sd is not None and sd[0] == 's' and sd[3]['r']['k'] == 'agg' and sd[3]['r'].get('var') in ('Ok', 'Some'):
-                out.append((d[1], sd[3]))
-    return out
+        elif r['k'] == 'use' and 'p' in r['o']:
+            pl = r['o']['p']
+            if len(pl) == 1:
+                sd = body.single_def(pl[0])
+                if sd is not None and sd[0] == 's' and sd[3]['r']['k'] == 'agg' and sd[3]['r'].get('var') in ('Ok', 'Some'):
+                    out.append((d[1], sd[3]))
+                    continue
+            if getattr(body, 'inlined', None) and (len(pl) == 1 or all(isinstance(p, str) and (p.startswith('@Ready') or p.endswith('::0') or p == '*') for p in pl[1:])):
+                from_local(pl[0], None, 6)
+    # de-duplicate
+    uniq = []
+    keys = set()
+    for bb, st in out:
+        k = (bb, id(st))
+        if k not in keys:
+            keys.add(k)
+            uniq.append((bb, st))
+    return uniq
 
 
 
@@ -730,8 +762,9 @@ def rejecting_conds(body):
     reject): list of Cond"""
     succ = set(bb for bb, _ in success_returns(body))
     out = []
+    tracking = bool(getattr(body, 'inlined', None))
     for n, e in body.edge_nodes().items():
-        reach = body.reachable_from([n])
+        reach = body.reachable_tracking([n]) if tracking else body.reachable_from([n])
         if not (reach & succ):
             out.append(F.edge_cond(body, e))
     return out
@@ -1188,3 +1221,37 @@ def body_field_writes(b, adt, field):
         if t['k'] == 'call' and tag in t['d'][1:]:
             out.append((bi, 'call-dest', t))
     return out
+
+
+def element_region(prog, b, marker_rx):
+    """the per-element step of a body, in whichever form it is written: a closure handed to map / filter_map / flat_map
+    that contains a call matching marker_rx (Ok / Some / plain value = emit, Err / None = skip), or a loop of `b` around such a
+    call that pushes what it emits and `continue`s / returns to skip.
+    returns (body, [(bb, emitted Expr)], [rejecting Cond], is_from_element(expr) -> bool) or None"""
+    rx = re.compile(marker_rx)
+    for cs in b.calls():
+        if not re.search(r'iter::Iterator::(map|filter_map|flat_map|try_for_each|for_each)$', cs.declared):
+            continue
+        for a in cs.args[1:]:
+            for x in b.expr(a).walk():
+                if x.k == 'agg' and x.d == 'closure' and x.a in prog.bodies and prog.bodies[x.a].calls(rx):
+                    fm = prog.bodies[x.a]
+                    emits = [(bb, fm.expr(st['r']['ops'][0])) for bb, st in success_returns(fm)]
+                    if not emits:
+                        emits = [(d[1], F.Expr.of_rvalue(fm, d[3]['r'], 20)) for d in fm.defs().get(0, []) if d[0] == 's']
+                    return fm, emits, rejecting_conds(fm), (lambda e: any(y.k == 'param' for y in e.walk()))
+    marks = b.calls(rx)
+    loops = [(h, ns) for h, ns in source_loops(b) if marks and marks[0].bb in ns]
+    if loops:
+        h, ns = min(loops, key=lambda x: len(x[1]))
+        pushes = [c for c in b.calls(r'Vec::<.*>::push$|VecDeque::<.*>::push_back$|HashMap::<.*>::insert$|BinaryHeap::<.*>::push$') if c.bb in ns]
+        emits = [(c.bb, b.expr(c.args[-1])) for c in pushes]
+        rej = []
+        for n, e in b.edge_nodes().items():
+            if e[0] not in ns:
+                continue
+            reach = b.reachable_from([n], {h})
+            if not any(bb in reach for bb, _v in emits):
+                rej.append(F.edge_cond(b, e))
+        return b, emits, rej, (lambda e: mentions_next(e) is not None)
+    return None
